@@ -226,13 +226,22 @@ type Log struct {
 	Events   []Event
 	RecSteps bool // record Step events with stack/memory
 	LightMem bool // do not copy memory (only len + hash)
+	// OnAdd, when set, is called synchronously for every event (online monitors).
+	OnAdd func(e *Event)
 }
 
 func (l *Log) add(e Event) *Event {
 	e.Seq = len(l.Events)
 	l.Events = append(l.Events, e)
-	return &l.Events[len(l.Events)-1]
+	pe := &l.Events[len(l.Events)-1]
+	if l.OnAdd != nil {
+		l.OnAdd(pe)
+	}
+	return pe
 }
+
+// Add appends a harness-made event.
+func (l *Log) Add(e Event) *Event { return l.add(e) }
 
 func cpBytes(b []byte) []byte {
 	if b == nil {
